@@ -289,6 +289,20 @@ func c18(cx *Ctx, r *ev.Report) {
 	r.Check(len(det) == 0, "C18/layout/func=NewMemory", ruleL, "internal/tinycpm/tinycpm.go", "summary-equality", det...)
 	r.Analysed["image_bytes_placed"] = len(img)
 	r.AddFloor("image_bytes_placed", len(img), 20)
+	// CP/M convention: the word at 0006h (the operand of the JP at 0005h) is the
+	// top of the transient program area; programs - zexdoc among them - put
+	// their stack there.  So nothing resident may lie between page 0 and it.
+	if ok5 {
+		var low []string
+		for a := range img {
+			if a >= 8 && a < bdos {
+				low = append(low, fmt.Sprintf("%04X", a))
+			}
+		}
+		sort.Strings(low)
+		r.Check(len(low) == 0, "C18/layout/resident-above-tpa", "LAYOUT(TPA): every resident byte outside page 0 (0000h-0007h) lies at or above the BDOS entry, the address programs take from 0006h as the top of their memory and stack - a caller's stack cannot overwrite the stub", "internal/tinycpm/tinycpm.go", "summary-equality",
+			"resident bytes below the BDOS entry "+fmt.Sprintf("%04X", bdos)+"h: "+strings.Join(low, " "))
+	}
 	if !ok5 {
 		c18IO(cx, r)
 		return
